@@ -12,3 +12,17 @@ func (rw *RollingWindow[T, B]) VerifRaw() (ring []B, offset int, lastTime, inter
 	ring = append(ring, rw.win.buckets...)
 	return ring, rw.offset, rw.lastTime, rw.interval
 }
+
+// VerifCopyFrom makes rw an exact copy of src (same size required): ring contents through cp,
+// offset and lastTime. Used to transplant a reached state into a fresh window so that look-ahead
+// probes need not replay the whole history.
+func (rw *RollingWindow[T, B]) VerifCopyFrom(src *RollingWindow[T, B], cp func(dst, src B)) {
+	if rw.size != src.size || rw.interval != src.interval || rw.ignoreCurrent != src.ignoreCurrent {
+		panic("verif: rolling windows differ in shape")
+	}
+	for i := range rw.win.buckets {
+		cp(rw.win.buckets[i], src.win.buckets[i])
+	}
+	rw.offset = src.offset
+	rw.lastTime = src.lastTime
+}
